@@ -756,13 +756,37 @@ struct Gen
 			// budgets that are not round numbers: next to powers of two (block sizes of an accumulation scheme), or anything
 			int k	 = (int) r.irange(10, thorough ? 19 : 17);
 			c.ncalls = r.chance(0.6) ? (1 << k) * (int) r.irange(1, 2) + (int) r.irange(-2, 40) : (int) r.logrange(1000, thorough ? 5e5 : 1.5e5);
+			if(r.chance(0.35))
+			{
+				// exact multiples of a power of two (an accumulation scheme working in blocks has an empty or a full last block)
+				int kk	 = (int) r.irange(10, 16);
+				c.ncalls = (1 << kk) * (int) r.irange(1, 15);
+				while(c.ncalls > (thorough ? 1000000 : 400000))
+					c.ncalls /= 2;
+			}
 			if(c.ncalls < 1000)
 				c.ncalls = 1000;
 		}
 		if(c.ncalls >= 100000 && c.method == 1 && !thorough && r.chance(0.5))
 			c.ncalls = 30000;
 		c.family = (int) r.pick(std::vector<long long>{0, 0, 1, 1, 2, 2, 3, 3, 4, 4, 5});
-		if(c.ncalls >= 250000 && r.chance(0.5))
+		bool by_strata = false;
+		if(c.method == 1 && c.ndim <= 3 && r.chance(0.3))
+		{
+			// Vegas stratifies with ng = floor((ncall/2 + 1/4)^(1/ndim)) cells per axis: choose the budget through ng, uniformly over
+			// the values that fit the tier's budget cap, so that every stratification count (and with it every ng/bin-count ratio)
+			// is visited instead of the handful that round budgets produce
+			double cap = thorough ? 1e6 : 3e5;
+			int ng_min = (int) std::ceil(std::pow(500.0, 1.0 / c.ndim)), ng_max = (int) std::floor(std::pow(cap / 2.0, 1.0 / c.ndim));
+			if(c.ndim == 1)
+				ng_max = std::min(ng_max, 2000);
+			int ng	   = (int) r.irange(ng_min, std::max(ng_min, ng_max));
+			double lo = 2.0 * std::pow((double) ng, c.ndim), hi = 2.0 * std::pow((double) ng + 1.0, c.ndim) - 1.0;
+			c.ncalls  = (int) std::min(cap, std::max(1000.0, std::floor(r.range(lo, std::min(hi, lo * 1.06 + 40)))));
+			c.family  = (int) r.pick(std::vector<long long>{1, 2, 4, 1, 2, 4, 0});
+			by_strata = true;
+		}
+		if(!by_strata && c.ncalls >= 250000 && r.chance(0.5))
 			c.family = 0;	// the exactness clause is the sharpest oracle there is for the expensive large-budget calls
 		switch(r.below(8))
 		{
